@@ -2050,6 +2050,86 @@ def gen_routing_url():
 
 
 # --------------------------------------------------------------------------
+# C08: MultiDict (datastructures/structures.py). The object *is* a dict of lists: it is the
+# parameter `self.d` (state of the mutators); `super().<dict method>(...)` are the prelude's dict
+# primitives on it, keys are texts, the value type is a parameter.
+
+_MDS = "datastructures/structures.py"
+_NU = py2lean.Abs("ν")
+_MD_TY = "Dict Str (List ν)"
+_MD_T = py2lean.Dct(STR, py2lean.Lst(_NU))
+_LNU = py2lean.Lst(_NU)
+
+
+def _super_call(method, nargs):
+    """matcher for `super().<method>(a1..an)` -> [a1..an]"""
+    import ast
+
+    def m(n):
+        if (isinstance(n, ast.Call) and isinstance(n.func, ast.Attribute) and n.func.attr == method and not n.keywords and len(n.args) == nargs
+                and isinstance(n.func.value, ast.Call) and isinstance(n.func.value.func, ast.Name) and n.func.value.func.id == "super"
+                and not n.func.value.args and not n.func.value.keywords):
+            return list(n.args)
+        return None
+
+    return m
+
+
+_MD_READS = [
+    (_super_call("__getitem__", 1), Fn("Pre.dictGetItem self_d", [STR], _LNU, raises=("KeyError",))),
+    (_super_call("items", 0), Fn("Pre.dictItems self_d", [], py2lean.Lst(Tup(STR, _LNU)))),
+    (_super_call("values", 0), Fn("Pre.dictValues self_d", [], py2lean.Lst(_LNU))),
+]
+_MD_COMMON = dict(module=_MDS, type_params=["ν"], in_ops={"self": Fn("Pre.dictHas self_d", [STR], BOOL)})
+_MD_CALLS = {
+    "dict_set": Fn("Pre.dictSet", [_MD_T, STR, _LNU], _MD_T),
+    "dict_get_d": Fn("Pre.dictGetD", [_MD_T, STR, _LNU], _LNU),
+    "dict_del": Fn("Pre.dictDel", [_MD_T, STR], _MD_T),
+}
+
+MD_GETITEM = Spec(qualname="MultiDict.__getitem__", name="md_getitem", params=[("self.d", _MD_TY), ("key", "Str")], result="ν", raises=True, patterns=_MD_READS, **_MD_COMMON)
+MD_SETITEM = Spec(
+    qualname="MultiDict.__setitem__", name="md_setitem", params=[("self.d", _MD_TY), ("key", "Str"), ("value", "ν")], state=["d"], result="Unit",
+    effects={"super().__setitem__(key, [value])": [("self.d", "dict_set(self.d, key, [value])")]}, calls=_MD_CALLS, **_MD_COMMON,
+)
+MD_ADD = Spec(
+    qualname="MultiDict.add", name="md_add", params=[("self.d", _MD_TY), ("key", "Str"), ("value", "ν")], state=["d"], result="Unit",
+    # `dict.setdefault(key, [])` answers the list stored under the key (a new empty one is stored first),
+    # `.append(value)` mutates that list in place: the entry becomes the old list plus the value
+    effects={"super().setdefault(key, []).append(value)": [("self.d", "dict_set(self.d, key, dict_get_d(self.d, key, []) + [value])")]}, calls=_MD_CALLS, **_MD_COMMON,
+)
+MD_GETLIST = Spec(
+    qualname="MultiDict.getlist", name="md_getlist", params=[("self.d", _MD_TY), ("key", "Str"), ("type", "Unit")], result="List ν",
+    static={"type is None": True},  # called without `type`
+    patterns=_MD_READS, calls={"list": Fn("id", [_LNU], _LNU)}, **_MD_COMMON,
+)
+_TAU_T = py2lean.Abs("τ")
+MD_GETLIST_TYPED = Spec(
+    qualname="MultiDict.getlist", name="md_getlist_typed", params=[("self.d", _MD_TY), ("key", "Str"), ("type", "Conv")], result="List τ",
+    # `type`: a callable that answers a value or raises ValueError / TypeError
+    opaque=[("call_type", "Conv → ν → Except String τ")],
+    static={"type is None": False},
+    patterns=_MD_READS, calls={"list": Fn("id", [_LNU], _LNU)},
+    callables={"Conv": Fn("call_type", [py2lean.Abs("Conv"), _NU], _TAU_T, raises=("ValueError", "TypeError"))},
+    locals={"result": "List τ"},
+    module=_MDS, type_params=["ν", "τ", "Conv"], in_ops=_MD_COMMON["in_ops"],
+)
+MD_SETLIST = Spec(
+    qualname="MultiDict.setlist", name="md_setlist", params=[("self.d", _MD_TY), ("key", "Str"), ("new_list", "List ν")], state=["d"], result="Unit",
+    effects={"super().__setitem__(key, list(new_list))": [("self.d", "dict_set(self.d, key, list(new_list))")]}, calls={**_MD_CALLS, "list": Fn("id", [_LNU], _LNU)}, **_MD_COMMON,
+)
+MD_LISTS = Spec(qualname="MultiDict.lists", name="md_lists", params=[("self.d", _MD_TY)], result="List (Str × List ν)", patterns=_MD_READS, calls={"list": Fn("id", [_LNU], _LNU)}, **_MD_COMMON)
+MD_VALUES = Spec(qualname="MultiDict.values", name="md_values", params=[("self.d", _MD_TY)], result="List ν", raises=True, patterns=_MD_READS, **_MD_COMMON)
+MD_LISTVALUES = Spec(qualname="MultiDict.listvalues", name="md_listvalues", params=[("self.d", _MD_TY)], result="List (List ν)", patterns=_MD_READS, **_MD_COMMON)
+MD_ITEMS = Spec(qualname="MultiDict.items", name="md_items", params=[("self.d", _MD_TY), ("multi", "Bool")], result="List (Str × ν)", raises=True, patterns=_MD_READS, **_MD_COMMON)
+
+
+@generator("PyFns_MultiDict")
+def gen_multidict():
+    return emit_parts("MultiDict", [[MD_GETITEM, MD_SETITEM, MD_ADD, MD_GETLIST, MD_GETLIST_TYPED, MD_SETLIST, MD_LISTS, MD_VALUES, MD_LISTVALUES, MD_ITEMS]])
+
+
+# --------------------------------------------------------------------------
 # C04: number converters
 
 NUMBER_TO_PYTHON = Spec(
